@@ -683,3 +683,13 @@ _add(
     "C03",
     m("reject-reuse-keeps-own-subtree", S, "                    job.subtree_tasks = self._get_subtree_tasks(job)\n                else:\n                    error_value = ErrorValue(", "                else:\n                    error_value = ErrorValue(", "C03.8"),
 )
+
+_add(
+    "C13",
+    m("then-truthiness-test", "redun/promise.py", "        if resolver is not None:", "        if resolver:", "C13.7"),
+)
+
+_add(
+    "C33",
+    m("exec-filter-keeps-cached", "redun/backends/db/query.py", "        job_statuses = [status for status in execution_statuses if status != \"CACHED\"]", "        job_statuses = list(execution_statuses)", "C33.2"),
+)
